@@ -262,6 +262,8 @@ def check_panel(case):
         p.Nxx, p.Nyy, p.Nxy = -1.0, -0.3, 0.
         p.num_eigvalues = case['num']
         p.lb(silent=True, sparse_solver=bool(case['sparse']))
+        p.beta, p.gamma = 2.3, 0.0           # an aerodynamic matrix left on the object by an earlier flutter step
+        p.calc_kA(silent=True)
         pan.retarget(p, cfg)
     p.Nxx, p.Nyy, p.Nxy = dict(biaxial=(-1.0, -0.3, 0.), shear=(0., 0., -1.0), comp_tens=(-1.0, 0.6, 0.2))[case.get('load', 'biaxial')]
     p.num_eigvalues = case['num']
